@@ -360,6 +360,10 @@ func (m *Module) assignGlobalIDs(validate bool) error {
 	}
 	// Assign global IDs to unnamed global variables.
 	for _, n := range m.Globals {
+		// Fill the lazily cached pointer type while the mutex is held: printing
+		// calls Type() for every operand without holding a lock, and a first
+		// call stores into n.Typ (documented for Typ == nil).
+		n.Type()
 		if err := setName(n); err != nil {
 			return errors.WithStack(err)
 		}
@@ -378,6 +382,7 @@ func (m *Module) assignGlobalIDs(validate bool) error {
 	}
 	// Assign global IDs to unnamed functions.
 	for _, n := range m.Funcs {
+		n.Type() // see above
 		if err := setName(n); err != nil {
 			return errors.WithStack(err)
 		}
